@@ -12,6 +12,7 @@ It does NOT decide anything about what the proc-macro generates for arbitrary us
 """
 from ..lib import *
 from ..core import short_loc, op_place, const_int
+from . import c20gen
 
 EXPLANATION = ("Derived schemas, library side only: registration-before-recursion in the builder, own-node-first in the "
                "container impls, integer mapping containment, Option/array/map/fixed shapes. Everything that depends on the "
@@ -188,3 +189,27 @@ def run(ctx):
     mi = [i for i in f.impls if i.get('trait') == 'BuildSchema' and 'HashMap<S, V>' in i['self_ty']]
     ok = bool(mi) and any('Deref' in p and 'str' in p for p in mi[0]['predicates'])
     ctx.ob('SHAPES', 'map-keys-are-strings', ok, short_loc(mi[0]['span']) if mi else None, 'HashMap<S, V>: S: Deref<Target = str>: %s' % (mi[0]['predicates'] if mi else None))
+
+    # ---- REGOWNER: only find_or_build touches the type registry (a node registered there must never be the copy that
+    # build_logical_type annotates / renames afterwards)
+    touch = []
+    for b in f.body_list:
+        own = fn_label(b) == 'SchemaBuilder::find_or_build' or b.id.startswith('serde_avro_derive::SchemaBuilder::find_or_build::')
+        for bb in sorted(b.live_blocks()):
+            if b.is_cleanup(bb):
+                continue
+            for s in b.stmts(bb):
+                if 'assign' not in s:
+                    continue
+                rv = s['rv']
+                places = [s['assign']] + ([rv['place']] if rv['k'] in ('ref', 'rawptr') else []) + [op_place(o) for o in ([rv['op']] if rv['k'] in ('use', 'cast') else [])]
+                for p in places:
+                    if p and any(isinstance(e, dict) and e.get('f') == 'already_built_types' for e in p.get('p', [])):
+                        touch.append((b, bb, own))
+    outside = sorted({fn_label(b) for b, bb, own in touch if not own})
+    inside = [1 for b, bb, own in touch if own]
+    ctx.ob('REGOWNER', 'only-find_or_build', not outside and bool(inside), short_loc(fb.span) if fb else None,
+           'functions other than find_or_build that reference SchemaBuilder::already_built_types: %s (find_or_build references: %d)' % (outside or 'none', len(inside)))
+
+    # ---- macro side, on the corpus
+    c20gen.run(ctx)
